@@ -83,8 +83,11 @@ def gen_geometry(rng, D, cls):
             h = _r(10 ** rng.uniform(-6, -3), 3)
             lb.append(_r(m - h, 12)); ub.append(_r(m + h, 12)); plb.append(_r(m - h / 2, 12)); pub.append(_r(m + h / 2, 12)); islog.append(False)
         elif c == "huge":
-            h = _r(10 ** rng.uniform(4, 6), 3)
-            lb.append(-h); ub.append(h); plb.append(_r(-h * rng.uniform(1e-3, 0.5))); pub.append(_r(h * rng.uniform(1e-3, 0.5))); islog.append(False)
+            # hard box up to 1e9 wide around a plausible box of ordinary size: internal coordinates of points
+            # between the two reach 1e7 and more (catastrophic cancellation territory for squared distances)
+            h = _r(10 ** rng.uniform(4, 9), 3)
+            pw = _r(min(h * 0.5, 10 ** rng.uniform(0, 3)), 3)
+            lb.append(-h); ub.append(h); plb.append(-pw); pub.append(pw); islog.append(False)
         elif c == "log":
             # hard bounds within ~1.5 decades of the plausible ones: pybads moves the
             # plausible bounds inside lb + 1e-3*(ub-lb), so a much larger ub would
